@@ -17,7 +17,7 @@ esac
 PANASIM_REPO="$WT/repo" PANASIM_OUT="$WT/bin" /verif/build.sh || exit 2
 rc=0
 for P in "$@"; do
-  out=$(PANASIM_OUTPUT_DIR="$WT/out" VERIF_QUICK_S="$BUDGET" "$WT/bin/panasim" check "$P" quick 2>&1)
+  out=$(PANASIM_SKIP_RACE=1 PANASIM_OUTPUT_DIR="$WT/out" VERIF_QUICK_S="$BUDGET" "$WT/bin/panasim" check "$P" quick 2>&1)
   code=$?
   echo "--- $P exit=$code"
   echo "$out" | grep -E "^violation:|^VIOLATION|^runs=|MACHINERY" | cut -c1-500
